@@ -1,8 +1,429 @@
 package sim
 
-import "fmt"
+import (
+	"bufio"
+	"bytes"
+	"encoding/json"
+	"flag"
+	"fmt"
+	"os"
+	"os/exec"
+	"path/filepath"
+	"runtime"
+	"strconv"
+	"strings"
+	"sync"
+	"time"
+)
 
 func dispatch(env Env, args []string) int {
-	fmt.Println("not implemented:", args)
+	switch args[0] {
+	case "worker":
+		return workerMain(env, args[1:])
+	case "exec":
+		return execMain(env, args[1:])
+	case "check":
+		return checkMain(args[1:])
+	case "replay":
+		return replayMain(args[1:])
+	case "selftest":
+		return selftestMain(args[1:])
+	case "racenode":
+		return raceNodeMain(env, args[1:])
+	}
+	fmt.Fprintln(os.Stderr, "unknown subcommand", args[0])
 	return 2
+}
+
+func envSeed() uint64 {
+	if s := os.Getenv("VERIF_SEED"); s != "" {
+		if v, err := strconv.ParseUint(s, 10, 64); err == nil {
+			return v
+		}
+		if v, err := strconv.ParseInt(s, 10, 64); err == nil {
+			return uint64(v)
+		}
+	}
+	return 1
+}
+
+// ---------------- worker: executes a slice of a batch in one node ----------------
+
+type workerLine struct {
+	Result *PlanResult  `json:"result,omitempty"`
+	Final  *workerFinal `json:"final,omitempty"`
+}
+
+type workerFinal struct {
+	SitesHit   int              `json:"sitesHit"`
+	SitesTotal int              `json:"sitesTotal"`
+	MapSites   int              `json:"mapSites"`
+	Probes     map[string]int64 `json:"probes"`
+	Gomaxprocs int              `json:"gomaxprocs"`
+	Pid        int              `json:"pid"`
+}
+
+func setupWorld(env Env) *World {
+	w := NewWorld(env)
+	env.InstallProxies(monitor{w})
+	w.Activate()
+	return w
+}
+
+func workerMain(env Env, args []string) int {
+	fs := flag.NewFlagSet("worker", flag.ExitOnError)
+	prop := fs.String("property", "", "")
+	seed := fs.Uint64("seed", 1, "")
+	tier := fs.String("tier", "quick", "")
+	from := fs.Int("from", 0, "")
+	to := fs.Int("to", 0, "")
+	stride := fs.Int("stride", 1, "")
+	list := fs.String("indices", "", "comma separated explicit indices (overrides from/to/stride)")
+	out := fs.String("out", "", "")
+	wal := fs.String("wal", "", "")
+	keepPlans := fs.Bool("plans", false, "attach every literal plan to its result")
+	_ = fs.Parse(args)
+	var idx []int
+	if *list != "" {
+		for _, s := range strings.Split(*list, ",") {
+			v, _ := strconv.Atoi(s)
+			idx = append(idx, v)
+		}
+	} else {
+		for i := *from; i < *to; i += *stride {
+			idx = append(idx, i)
+		}
+	}
+	w := setupWorld(env)
+	of, err := os.Create(*out)
+	if err != nil {
+		fmt.Fprintln(os.Stderr, err)
+		return 2
+	}
+	defer of.Close()
+	bw := bufio.NewWriter(of)
+	var wf *os.File
+	if *wal != "" {
+		wf, _ = os.Create(*wal)
+		defer wf.Close()
+	}
+	enc := json.NewEncoder(bw)
+	for _, i := range idx {
+		if wf != nil {
+			fmt.Fprintf(wf, "S %d\n", i)
+		}
+		plan := GenPlan(*prop, *seed, i, *tier)
+		res := ExecPlan(w, plan)
+		if *keepPlans {
+			res.Plan = plan
+		}
+		if res.Plan != nil {
+			res.Plan = withRecordedSchedules(res.Plan, res.Segments)
+		}
+		_ = enc.Encode(workerLine{Result: res})
+		_ = bw.Flush()
+		if wf != nil {
+			fmt.Fprintf(wf, "D %d\n", i)
+		}
+	}
+	hit := 0
+	for _, h := range w.siteHits {
+		if h > 0 {
+			hit++
+		}
+	}
+	_ = enc.Encode(workerLine{Final: &workerFinal{SitesHit: hit, SitesTotal: len(w.sites), MapSites: len(w.mapSites), Probes: w.probes,
+		Gomaxprocs: runtime.GOMAXPROCS(0), Pid: os.Getpid()}})
+	_ = bw.Flush()
+	return 0
+}
+
+// withRecordedSchedules returns a copy of plan in which every group carries
+// the schedule actually taken (literal segments) instead of strategy + seed.
+func withRecordedSchedules(plan *Plan, segs map[string][][2]int64) *Plan {
+	b := JSONBytes(plan)
+	var c Plan
+	_ = json.Unmarshal(b, &c)
+	for _, op := range c.Ops {
+		if op.Kind == "group" {
+			if s, ok := segs[op.ID]; ok && len(s) > 0 {
+				orig := "serial"
+				if op.Sched != nil {
+					orig = op.Sched.Strategy
+				}
+				op.Sched = &SchedSpec{Strategy: "explicit", Segments: s, K: 0}
+				_ = orig
+			}
+		}
+	}
+	return &c
+}
+
+// ---------------- exec: run literal plans from a file in this fresh node ----------------
+
+type execInput struct {
+	Plans []*Plan `json:"plans"`
+}
+
+type execOutput struct {
+	Results []*PlanResult `json:"results"`
+}
+
+func execMain(env Env, args []string) int {
+	fs := flag.NewFlagSet("exec", flag.ExitOnError)
+	in := fs.String("in", "", "")
+	out := fs.String("out", "", "")
+	_ = fs.Parse(args)
+	b, err := os.ReadFile(*in)
+	if err != nil {
+		fmt.Fprintln(os.Stderr, err)
+		return 2
+	}
+	var ei execInput
+	if err := json.Unmarshal(b, &ei); err != nil {
+		fmt.Fprintln(os.Stderr, err)
+		return 2
+	}
+	w := setupWorld(env)
+	var eo execOutput
+	for _, p := range ei.Plans {
+		eo.Results = append(eo.Results, ExecPlan(w, p))
+	}
+	if err := os.WriteFile(*out, JSONBytes(eo), 0o644); err != nil {
+		fmt.Fprintln(os.Stderr, err)
+		return 2
+	}
+	return 0
+}
+
+// runPlansFresh executes plans in a fresh node process and returns the
+// results; died is true when the process did not survive.
+func runPlansFresh(plans []*Plan, gomaxprocs int) (res []*PlanResult, died bool, stderrTail string) {
+	dir, err := os.MkdirTemp(os.Getenv("DST_SCRATCH"), "exec")
+	if err != nil {
+		infra("mktemp: %v", err)
+	}
+	defer os.RemoveAll(dir)
+	in := filepath.Join(dir, "in.json")
+	out := filepath.Join(dir, "out.json")
+	if err := os.WriteFile(in, JSONBytes(execInput{Plans: plans}), 0o644); err != nil {
+		infra("%v", err)
+	}
+	cmd := exec.Command(os.Getenv("DST_NODE"), "exec", "-in", in, "-out", out)
+	cmd.Env = append(os.Environ(), fmt.Sprintf("GOMAXPROCS=%d", gomaxprocs))
+	var eb bytes.Buffer
+	cmd.Stderr = &eb
+	done := make(chan error, 1)
+	if err := cmd.Start(); err != nil {
+		infra("start node: %v", err)
+	}
+	go func() { done <- cmd.Wait() }()
+	select {
+	case err = <-done:
+	case <-time.After(10 * time.Minute):
+		_ = cmd.Process.Kill()
+		infra("node exec watchdog (10 min) fired")
+	}
+	if err != nil {
+		if ee, ok := err.(*exec.ExitError); ok && ee.ExitCode() == 2 && strings.Contains(eb.String(), "INFRASTRUCTURE") {
+			infra("node: %s", tail(eb.String(), 600))
+		}
+		return nil, true, tail(eb.String(), 1500)
+	}
+	b, err := os.ReadFile(out)
+	if err != nil {
+		infra("node produced no output: %v", err)
+	}
+	var eo execOutput
+	if err := json.Unmarshal(b, &eo); err != nil {
+		infra("bad node output: %v", err)
+	}
+	return eo.Results, false, ""
+}
+
+func tail(s string, n int) string {
+	if len(s) > n {
+		return "…" + s[len(s)-n:]
+	}
+	return s
+}
+
+// ---------------- check: the orchestrator ----------------
+
+type batchSizes struct{ quick, thorough int }
+
+var sizes = map[string]batchSizes{
+	"C02": {320, 40000},
+	"C07": {1200, 150000},
+	"C08": {400, 30000},
+	"C09": {600, 60000},
+	"C10": {400, 40000},
+	"C20": {320, 40000},
+}
+
+type runOutcome struct {
+	results    map[int]*PlanResult
+	finals     []*workerFinal
+	deaths     []death
+	wall       time.Duration
+	workers    int
+}
+
+type death struct {
+	index  int
+	stderr string
+	worker int
+}
+
+// runBatch executes run indices [0,n) of a batch over `workers` node
+// processes (worker j takes j, j+workers, ...), restarting a worker whose
+// node died after the plan that killed it.
+func runBatch(prop string, seed uint64, tier string, indices []int, workers int, gmp []int, tag string) *runOutcome {
+	t0 := time.Now()
+	dir, err := os.MkdirTemp(os.Getenv("DST_SCRATCH"), "batch-"+tag)
+	if err != nil {
+		infra("mktemp: %v", err)
+	}
+	defer os.RemoveAll(dir)
+	oc := &runOutcome{results: map[int]*PlanResult{}, workers: workers}
+	var mu sync.Mutex
+	var wg sync.WaitGroup
+	parts := make([][]int, workers)
+	for k, i := range indices {
+		parts[k%workers] = append(parts[k%workers], i)
+	}
+	for j := 0; j < workers; j++ {
+		if len(parts[j]) == 0 {
+			continue
+		}
+		wg.Add(1)
+		go func(j int) {
+			defer wg.Done()
+			todo := parts[j]
+			attempt := 0
+			for len(todo) > 0 {
+				attempt++
+				out := filepath.Join(dir, fmt.Sprintf("w%d-%d.jsonl", j, attempt))
+				wal := filepath.Join(dir, fmt.Sprintf("w%d-%d.wal", j, attempt))
+				strs := make([]string, len(todo))
+				for k, v := range todo {
+					strs[k] = strconv.Itoa(v)
+				}
+				cmd := exec.Command(os.Getenv("DST_NODE"), "worker", "-property", prop, "-seed", strconv.FormatUint(seed, 10), "-tier", tier,
+					"-indices", strings.Join(strs, ","), "-out", out, "-wal", wal)
+				cmd.Env = append(os.Environ(), fmt.Sprintf("GOMAXPROCS=%d", gmp[j%len(gmp)]))
+				var eb bytes.Buffer
+				cmd.Stderr = &eb
+				done := make(chan error, 1)
+				if err := cmd.Start(); err != nil {
+					infra("start worker: %v", err)
+				}
+				go func() { done <- cmd.Wait() }()
+				var werr error
+				select {
+				case werr = <-done:
+				case <-time.After(batchWatchdog(tier)):
+					_ = cmd.Process.Kill()
+					infra("worker %d watchdog fired (no verdict)", j)
+				}
+				// read what it produced
+				doneIdx := map[int]bool{}
+				if f, err := os.Open(out); err == nil {
+					sc := bufio.NewScanner(f)
+					sc.Buffer(make([]byte, 1<<20), 1<<28)
+					for sc.Scan() {
+						var wl workerLine
+						if json.Unmarshal(sc.Bytes(), &wl) != nil {
+							continue
+						}
+						mu.Lock()
+						if wl.Result != nil {
+							oc.results[wl.Result.Index] = wl.Result
+							doneIdx[wl.Result.Index] = true
+						}
+						if wl.Final != nil {
+							oc.finals = append(oc.finals, wl.Final)
+						}
+						mu.Unlock()
+					}
+					f.Close()
+				}
+				if werr == nil {
+					return
+				}
+				if ee, ok := werr.(*exec.ExitError); ok && ee.ExitCode() == 2 && strings.Contains(eb.String(), "INFRASTRUCTURE") {
+					infra("worker %d: %s", j, tail(eb.String(), 800))
+				}
+				// the node died: the write-ahead log names the plan in flight
+				inflight := -1
+				if b, err := os.ReadFile(wal); err == nil {
+					for _, ln := range strings.Split(string(b), "\n") {
+						var k int
+						if n, _ := fmt.Sscanf(ln, "S %d", &k); n == 1 {
+							inflight = k
+						}
+						if n, _ := fmt.Sscanf(ln, "D %d", &k); n == 1 && k == inflight {
+							inflight = -1
+						}
+					}
+				}
+				mu.Lock()
+				oc.deaths = append(oc.deaths, death{index: inflight, stderr: tail(eb.String(), 3000), worker: j})
+				mu.Unlock()
+				var rest []int
+				for _, v := range todo {
+					if !doneIdx[v] && v != inflight {
+						rest = append(rest, v)
+					}
+				}
+				if inflight == -1 && len(rest) == len(todo) {
+					infra("worker %d died before starting any plan: %s", j, tail(eb.String(), 800))
+				}
+				todo = rest
+			}
+		}(j)
+	}
+	wg.Wait()
+	oc.wall = time.Since(t0)
+	return oc
+}
+
+func batchWatchdog(tier string) time.Duration {
+	if tier == "thorough" {
+		return 5 * time.Hour
+	}
+	return 20 * time.Minute
+}
+
+func checkMain(args []string) int {
+	fs := flag.NewFlagSet("check", flag.ExitOnError)
+	prop := fs.String("property", "", "")
+	tier := fs.String("tier", "", "")
+	runs := fs.Int("runs", 0, "override the number of simulated runs")
+	_ = fs.Parse(args)
+	if *tier == "" {
+		*tier = os.Getenv("VERIF_TIER")
+	}
+	if *tier != "thorough" {
+		*tier = "quick"
+	}
+	sz, ok := sizes[*prop]
+	if !ok {
+		fmt.Fprintln(os.Stderr, "unknown property", *prop)
+		return 2
+	}
+	n := sz.quick
+	if *tier == "thorough" {
+		n = sz.thorough
+	}
+	if v := os.Getenv("DST_RUNS"); v != "" {
+		n, _ = strconv.Atoi(v)
+	}
+	if *runs > 0 {
+		n = *runs
+	}
+	seed := envSeed()
+	fmt.Printf("[dst] property=%s tier=%s VERIF_SEED=%d runs=%d\n", *prop, *tier, seed, n)
+	c := &checker{prop: *prop, tier: *tier, seed: seed, n: n, t0: time.Now()}
+	return c.run()
 }
